@@ -141,7 +141,13 @@ func helperConfig(t *rapid.T) lockgen.Config {
 	c.Malformed = ""
 	c.HashKind = "ok"
 	c.NSigs = rapid.SampledFrom([]int{-1, 0, 1}).Draw(t, "helper_n_sigs")
-	c.NCosign = rapid.IntRange(1, 3).Draw(t, "helper_cosigners")
+	// no listed keys at all is the plain hash lock: the helpers' witness is then the preimage (a threshold without
+	// listed keys cannot be met by anybody and is outside the helpers' domain)
+	c.NCosign = rapid.IntRange(0, 3).Draw(t, "helper_cosigners")
+	if c.NCosign == 0 {
+		c.NSigs = -1
+		c.PubkeyOrder = nil
+	}
 	c.Locktime = rapid.SampledFrom([]string{"absent", "future"}).Draw(t, "helper_locktime")
 	if len(c.Preimage) == 0 {
 		c.Preimage = "00"
@@ -165,7 +171,10 @@ func trim(c lockgen.Config) lockgen.Config {
 func propHelperInputs(t *rapid.T) {
 	c := helperConfig(t)
 	secret := c.Secret()
-	signer := lockgen.Cosign0 + rapid.IntRange(0, c.NCosign-1).Draw(t, "signer")
+	signer := lockgen.Cosign0 // no listed keys: the helper still signs, nobody asks for the signature
+	if c.NCosign > 0 {
+		signer += rapid.IntRange(0, c.NCosign-1).Draw(t, "signer")
+	}
 	ns, _ := nut10.DeserializeSecret(secret)
 	proofs := cashu.Proofs{{Amount: 1, Id: "00c13c13c13c13c1", Secret: secret, C: "02" + strings.Repeat("11", 32)}}
 	rec.Eval()
@@ -217,8 +226,9 @@ func propSwap(t *rapid.T) {
 		if caseKind == "tamper_output" {
 			c.Sigflag = "SIG_ALL"
 		}
-		if c.Sigflag == "SIG_ALL" {
-			// output signatures need a signing key: the helper domain has n_sigs = 1 with the signer listed
+		if c.Sigflag == "SIG_ALL" && c.NCosign > 0 {
+			// output signatures need a signing key: n_sigs = 1 with the signer listed (without listed keys the lock
+			// is the hash alone and the outputs carry the preimage)
 			c.NSigs = 1
 		}
 		c = trim(c)
@@ -239,9 +249,15 @@ func propSwap(t *rapid.T) {
 	w.PayInvoice(q)
 	var outs []world.Out
 	var cfgs []lockgen.Config
+	// SIG_ALL wants all inputs under the same condition: one case in four with two locked inputs gives the second
+	// another hash (its own preimage opens it; everything else identical)
+	otherHash := nLocked == 2 && c.Sigflag == "SIG_ALL" && c.HashKind == "ok" && rapid.IntRange(0, 3).Draw(t, "second_input_other_hash") == 0
 	for i := 0; i < nLocked; i++ {
 		ci := c
 		ci.Nonce = fmt.Sprintf("%s%02x", c.Nonce[:62], i)
+		if otherHash && i == 1 {
+			ci.Preimage = c.Preimage + "ff"
+		}
 		cfgs = append(cfgs, ci)
 		outs = append(outs, w.BlindSecret(ci.Secret(), 4, w.ActiveID))
 	}
@@ -261,7 +277,7 @@ func propSwap(t *rapid.T) {
 		if ix < nLocked {
 			if helperCase {
 				ns, _ := nut10.DeserializeSecret(p.Secret)
-				ps, err := nut14.AddWitnessHTLC(cashu.Proofs{p}, ns, c.Preimage, lockgen.K(signer).Priv)
+				ps, err := nut14.AddWitnessHTLC(cashu.Proofs{p}, ns, cfgs[ix].Preimage, lockgen.K(signer).Priv)
 				if err != nil {
 					violate(t, "helper|AddWitnessHTLC_failed", "%v", err)
 					return
@@ -269,7 +285,7 @@ func propSwap(t *rapid.T) {
 				p = ps[0]
 			} else {
 				elems, _ := lockgen.GenWitnessElems(t, cfgs[ix], candidateKeys, "sig")
-				pre, _ := genPreimage(t, c)
+				pre, _ := genPreimage(t, cfgs[ix])
 				p.Witness = lockgen.WitnessJSON("object", lockgen.Render(elems, []byte(p.Secret)), pre, true)
 			}
 			v := ref.EvalInput(p.Secret, p.Witness, time.Now().Unix(), lockgen.Verify)
@@ -381,7 +397,10 @@ func propSwap(t *rapid.T) {
 		// does not accept as a signature over the bytes of B_
 		violate(t, "e2e|swap_accepted_sig_all_rule_broken|"+whySA, "swap accepted although SIG_ALL outputs rule is broken (%s, outputs %s); secrets %v", whySA, outMode, secrets)
 	}
-	if helperCase && !accepted && (outMode == "helper" || outMode == "unsigned") {
+	if otherHash {
+		rec.Class("e2e_sig_all_inputs_with_different_hashes")
+	}
+	if helperCase && !otherHash && !accepted && (outMode == "helper" || outMode == "unsigned") {
 		violate(t, fmt.Sprintf("e2e|helper_witness_rejected_by_mint|sig_all=%v|outputs=%s", anySA, outMode), "the mint rejects (%v) the witnesses produced by the library's HTLC helpers; secrets %v input witnesses %v output witnesses %v", err, secrets, wit(inputs), ows)
 	}
 	if !helperCase && !accepted && allSuff && !anySA {
